@@ -150,7 +150,7 @@ func runProperty(ld *Loader, specs *Specs, id string, timeoutS int, outDir strin
 
 func contractDerived(kind string) bool {
 	switch kind {
-	case "post", "inv-entry", "inv-keep", "variant", "frame", "event", "pre", "lemma", "lock", "monitor", "stable", "objinv", "nopanic", "forbid", "cbinv-entry", "cbinv-keep":
+	case "post", "inv-entry", "inv-keep", "variant", "frame", "event", "pre", "lemma", "lock", "monitor", "stable", "objinv", "nopanic", "forbid", "anchors", "cbinv-entry", "cbinv-keep":
 		return true
 	}
 	return false
